@@ -72,6 +72,8 @@ func runC20(ctx *core.Ctx, out *core.Out) {
 	}
 	if cfg.WB < 64 {
 		max = 600
+	} else if max > 40*cfg.WB {
+		max = 40 * cfg.WB // keeps the number of transport operations (and so of fault points) affordable
 	}
 	prog := genProgram(r, cfg, ProgOpts{MaxMsgs: 4, MaxSize: max, Invalid: true})
 	desc := rtCase{Cfg: cfg, Prog: progDesc(prog)}
